@@ -37,6 +37,7 @@ import (
 	"github.com/metrico/qryn/writer/service/registry"
 	"github.com/metrico/qryn/writer/utils/helpers"
 	"github.com/metrico/qryn/writer/utils/numbercache"
+	"github.com/metrico/qryn/writer/utils/promise"
 	"github.com/metrico/qryn/writer/utils/unmarshal"
 )
 
@@ -76,9 +77,12 @@ type Op2 struct {
 	E  int    `json:"e,omitempty"` // ret with ok = false: index of the error text (errTexts) the INSERT fails with
 }
 type Ev2 struct {
-	T      string  `json:"t"` // dial swap send done answer
+	T      string  `json:"t"` // dial swap send done answer sreq sres
 	S      int     `json:"s"`
 	H      int     `json:"h,omitempty"`
+	I      int     `json:"i,omitempty"` // sreq / sres: position of the sub-request among those of push h
+	K      int     `json:"k,omitempty"` // sreq / sres: attempt number (calls of Request for this sub-request before this one)
+	N      int     `json:"n,omitempty"` // sreq / sres: rows of the request (a request without rows cannot be told apart from another one)
 	Ok     bool    `json:"ok"`
 	Rids   []int64 `json:"rids,omitempty"`   // send: the rows of the block, in block order
 	Counts []int   `json:"counts,omitempty"` // send: rows per column when they differ
@@ -303,6 +307,61 @@ type bench2 struct {
 	rid     map[string]int64 // group + row content -> row id
 	nextRid int64
 	status  map[int]int
+	owner   map[int64][2]int // row id -> (push, position of the sub-request) that submitted it
+	tries   map[[2]int]int   // Request calls seen per sub-request
+}
+
+// spySvc stands between doPush and the real service: it sees every Request call (which sub-request, which attempt)
+// and how the promise it returned was completed -- the retry count and the contents of the promise store
+type spySvc struct {
+	service.IInsertServiceV2
+	b *bench2
+	g int
+}
+
+func (s *spySvc) Request(req helpers.SizeGetter, mode int) *promise.Promise[uint32] {
+	h, i, nrows := -1, -1, 0
+	if keys, ok := reqRowKeys(l2kinds[s.g], req); ok && len(keys) > 0 {
+		nrows = len(keys)
+		s.b.mu.Lock()
+		if id, known := s.b.rid[fmt.Sprint(s.g)+"|"+keys[0]]; known {
+			if o, ok := s.b.owner[id]; ok {
+				h, i = o[0], o[1]
+			}
+		}
+		s.b.mu.Unlock()
+	}
+	s.b.mu.Lock()
+	k := s.b.tries[[2]int{h, i}]
+	s.b.tries[[2]int{h, i}] = k + 1
+	s.b.events = append(s.b.events, Ev{T: "sreq", L2: &Ev2{T: "sreq", S: s.g, H: h, I: i, K: k, N: nrows}})
+	s.b.mu.Unlock()
+	p := s.IInsertServiceV2.Request(req, mode)
+	go func() {
+		_, err := p.Get()
+		s.b.log(Ev{T: "sres", L2: &Ev2{T: "sres", S: s.g, H: h, I: i, K: k, N: nrows, Ok: err == nil}})
+	}()
+	return p
+}
+
+// learn records which sub-request of which push owns the rows of the items of push h
+func (b *bench2) learn(h int, items []Item) {
+	b.mu.Lock()
+	defer b.mu.Unlock()
+	i := 0
+	for _, it := range items {
+		if it.Err {
+			break
+		}
+		for _, sr := range it.Chunk {
+			for _, id := range sr.Rids {
+				if _, dup := b.owner[id]; !dup {
+					b.owner[id] = [2]int{h, i}
+				}
+			}
+			i++
+		}
+	}
 }
 
 // Do of the level-2 client: rows are recognised by content
@@ -350,6 +409,8 @@ func (b *bench2) take2raw() []Ev2 {
 			x := *e.L2
 			x.S = e.S
 			out = append(out, x)
+		case "sreq", "sres":
+			out = append(out, *e.L2)
 		case "answer":
 			out = append(out, Ev2{T: "answer", H: e.P, Ok: e.Ok, Status: int(e.S)})
 		default:
@@ -367,7 +428,7 @@ func (b *bench2) take2() []Ev2 {
 	out := make([]Ev2, 0, len(evs))
 	for _, e := range evs {
 		switch e.T {
-		case "send":
+		case "send", "sreq", "sres":
 			out = append(out, *e.L2)
 		case "answer":
 			out = append(out, Ev2{T: "answer", H: e.P, Ok: e.Ok, Status: int(e.S)})
@@ -381,6 +442,8 @@ func (b *bench2) take2() []Ev2 {
 			return 0
 		case "answer":
 			return 1
+		case "sreq", "sres":
+			return 3
 		}
 		return 2
 	}
@@ -502,7 +565,7 @@ func (b *bench2) dryParse(hr *HReq) []Item {
 func start2(c *Case2) *runner2 {
 	n := len(l2kinds)
 	b := newBench(make([]int, n), c.Dials)
-	b2 := &bench2{bench: b, rid: map[string]int64{}, nextRid: 1, status: map[int]int{}}
+	b2 := &bench2{bench: b, rid: map[string]int64{}, nextRid: 1, status: map[int]int{}, owner: map[int64][2]int{}, tries: map[[2]int]int{}}
 	b.l2 = b2
 	r := &runner2{c: c, b: b2}
 	maps := make([]map[string]service.IInsertServiceV2, n)
@@ -513,7 +576,7 @@ func start2(c *Case2) *runner2 {
 		mm.Init()
 		go mm.Run()
 		r.svcs = append(r.svcs, mm)
-		maps[i] = map[string]service.IInsertServiceV2{"n": sv}
+		maps[i] = map[string]service.IInsertServiceV2{"n": &spySvc{IInsertServiceV2: sv, b: b2, g: i}}
 	}
 	controllerv1.Registry = registry.NewStaticServiceRegistry(maps[gSeries], maps[gSamples],
 		map[string]service.IInsertServiceV2{}, maps[gSpans], maps[gTags], maps[gProfile])
@@ -615,6 +678,7 @@ func runScript2(c *Case2) {
 	r := start2(c)
 	for i := range c.Reqs {
 		c.Reqs[i].Items = r.b.dryParse(&c.Reqs[i])
+		r.b.learn(i, c.Reqs[i].Items)
 	}
 	c.Obs = nil
 	for i := range c.Ops {
@@ -805,6 +869,7 @@ func (g *gen) runGenerated2(c *Case2, uniq *int64) {
 			hr = HReq{Route: []string{"loki", "zipkin"}[r.Intn(2)], Body: hex.EncodeToString([]byte(`{"streams":[{"stream":{"a":`))}
 		}
 		hr.Items = rn.b.dryParse(&hr)
+		rn.b.learn(h, hr.Items)
 		c.Reqs = append(c.Reqs, hr)
 		step(Op2{T: "http", H: h})
 	}
@@ -849,6 +914,7 @@ func (g *gen) runGenerated2(c *Case2, uniq *int64) {
 		*uniq += int64(n)
 		c.Rows += n
 		hr.Items = rn.b.dryParse(&hr)
+		rn.b.learn(h, hr.Items)
 		c.Reqs = append(c.Reqs, hr)
 		step(Op2{T: "http", H: h})
 		if r.Intn(3) == 0 {
